@@ -3,9 +3,14 @@
 set -e
 cd "$(dirname "$0")"
 export CARGO_NET_OFFLINE=true
-export CARGO_TARGET_DIR=/verif/.cache/target
 mkdir -p .cache/work .cache/replays evidence
-( cd coq && coq_makefile -f _CoqProject -o Makefile >/dev/null 2>&1 && timeout 3000 make -j16 2>&1 | grep -v '^Warning' | tail -n 40 )
-( cd harness/implrun && cp /repo/Cargo.lock Cargo.lock && cargo build --offline --release 2>&1 | tail -n 3 )
-( cd harness/rt && cp /repo/Cargo.lock Cargo.lock && mkdir -p src/bin && printf 'fn main() {}\n' > src/bin/warmup.rs && cargo build --offline --release --bin warmup 2>&1 | tail -n 3; rm -f src/bin/warmup.rs )
+( cd coq && coq_makefile -f _CoqProject -o Makefile >/dev/null 2>&1 && timeout 3000 make -j16 2>&1 | grep -v '^Warning\|^Closed\|^COQ\|^Axioms:\|functional_extensionality\|forall\|f = g' | tail -n 40 )
+( cd harness/implrun && cp /repo/Cargo.lock Cargo.lock && CARGO_TARGET_DIR=/verif/.cache/target cargo build --offline --release 2>&1 | tail -n 2 )
+( cd harness/rt && cp /repo/Cargo.lock Cargo.lock && mkdir -p src/bin && printf 'fn main() {}\n' > src/bin/warmup.rs && CARGO_TARGET_DIR=/verif/.cache/target cargo build --offline --release --bin warmup 2>&1 | tail -n 2; rm -f src/bin/warmup.rs )
+( cd harness/parserun && cp /repo/Cargo.lock Cargo.lock && CARGO_TARGET_DIR=/verif/.cache/target-parserun cargo build --offline --release 2>&1 | tail -n 2 )
+( cd harness/asyncrt && cp /repo/Cargo.lock Cargo.lock && CARGO_TARGET_DIR=/verif/.cache/target-asyncrt cargo build --offline --release 2>&1 | tail -n 2 )
+python3 -c "
+import sys; sys.path.insert(0, 'tools')
+import pstage; pstage.build_lib()
+"
 echo setup done
